@@ -213,36 +213,38 @@ func findRoute(
 			return "", log, false
 		}
 
-		// Remove selected backend from list to avoid retrying it
-		for i, backend := range tryBackends {
-			normalizedBackend, err := netutil.Parse(backend, src.RemoteAddr().Network())
-			if err != nil {
+		// Remove the selected backend from the list to avoid retrying it: the selected entry
+		// itself and every other entry that denotes the same backend (same address once the
+		// default port is applied). Each call therefore shrinks the list, so an attempt ends
+		// after at most len(route.Backend) tries, also when an address cannot be parsed.
+		network := src.RemoteAddr().Network()
+		selectedAddr := normalizeBackendAddr(backendAddr, network)
+		remaining := tryBackends[:0]
+		for _, backend := range tryBackends {
+			if backend == backendAddr || normalizeBackendAddr(backend, network) == selectedAddr {
 				continue
 			}
-			normalizedAddr := normalizedBackend.String()
-			if _, port := netutil.HostPort(normalizedBackend); port == 0 {
-				normalizedAddr = net.JoinHostPort(normalizedBackend.String(), "25565")
-			}
-
-			normalizedSelected, err := netutil.Parse(backendAddr, src.RemoteAddr().Network())
-			if err != nil {
-				continue
-			}
-			selectedAddr := normalizedSelected.String()
-			if _, port := netutil.HostPort(normalizedSelected); port == 0 {
-				selectedAddr = net.JoinHostPort(normalizedSelected.String(), "25565")
-			}
-
-			if normalizedAddr == selectedAddr {
-				tryBackends = append(tryBackends[:i], tryBackends[i+1:]...)
-				break
-			}
+			remaining = append(remaining, backend)
 		}
+		tryBackends = remaining
 
 		return backendAddr, newLog.WithValues("backendAddr", backendAddr), true
 	}
 
 	return log, src, route, host, nextBackend, nil
+}
+
+// normalizeBackendAddr returns addr with the default port applied when it has none,
+// or addr unchanged if it cannot be parsed.
+func normalizeBackendAddr(addr, network string) string {
+	parsed, err := netutil.Parse(addr, network)
+	if err != nil {
+		return addr
+	}
+	if _, port := netutil.HostPort(parsed); port == 0 {
+		return net.JoinHostPort(parsed.String(), "25565")
+	}
+	return parsed.String()
 }
 
 func dialRoute(
